@@ -1,5 +1,6 @@
 import FlatModel.Model.Ops
 import FlatModel.Model.Huffman
+import FlatModel.Model.HuffSpec
 import FlatModel.Model.Codec
 /-! The two coded regions behind the common `Region` interface. -/
 namespace FC
@@ -10,9 +11,12 @@ instance : Region Huff.Container (List Nat) (Nat × Nat) where
   push := Huff.Container.push
   index := Huff.Container.index
   clear := Huff.Container.clear
-  Inv _ := True
-  Valid h i := (Huff.Container.index h i).isSome
-  Accepts h v := (Huff.Container.push h v).isSome
+  -- ghost fields (Model/HuffSpec.lean): raw mode: nothing / range within `raw` / everything;
+  -- coded mode: `EncOK c ∧ TableOK c ∧ WFStore bytes bits` / the bit range denotes a concatenation of
+  -- code words within the valid bits / every symbol has a code
+  Inv := Huff.Container.Inv
+  Valid := Huff.Container.Valid
+  Accepts := Huff.Container.Accepts
   Sim a b := a = b
   same a b := a = b
 
@@ -67,9 +71,9 @@ instance : Region HuffU8 (List UInt8) (Nat × Nat) where
   push h v := (Huff.Container.push h.c (v.map UInt8.toNat)).map fun (c, i) => (⟨c⟩, i)
   index h i := (Huff.Container.index h.c i).map fun xs => xs.map UInt8.ofNat
   clear h := ⟨Huff.Container.clear h.c⟩
-  Inv _ := True
-  Valid h i := (Huff.Container.index h.c i).isSome
-  Accepts h v := (Huff.Container.push h.c (v.map UInt8.toNat)).isSome
+  Inv h := Huff.Container.Inv h.c
+  Valid h i := Huff.Container.Valid h.c i
+  Accepts h v := Huff.Container.Accepts h.c (v.map UInt8.toNat)
   Sim a b := a.c = b.c
   same a b := a = b
 
